@@ -185,7 +185,9 @@ def call_output_same(inp: Any, value: Any) -> tuple[str, str, bool]:
 
 
 MAGNITUDES = [("1", 1), ("-1", -1), ("1e-30", sp.Float("1e-30")), ("1e30", sp.Float("1e30")),
-    ("7/3", sp.Rational(7, 3)), ("2+3i", 2 + 3 * sp.I)]
+    ("7/3", sp.Rational(7, 3)), ("2+3i", 2 + 3 * sp.I),
+    # outside the range of a binary double, ordinary for sympy (e.g. a product of two small values)
+    ("1e-400", sp.Float("1e-400")), ("1e400", sp.Float("1e400"))]
 ABSORBING = [("0", 0), ("0.0", 0.0), ("oo", sp.oo), ("-oo", -sp.oo), ("nan", sp.nan)]
 
 
